@@ -7,6 +7,7 @@ package chainh
 import (
 	"encoding/binary"
 	"fmt"
+	"strings"
 	"math/big"
 	"math/rand"
 	"time"
@@ -37,8 +38,9 @@ var _ blockchain.MedianTimeSource = (*FixedTime)(nil)
 // NetOpts tunes the synthetic network.
 type NetOpts struct {
 	Maturity uint16
-	BIP34    bool // BIP34/65/66 active from height 1 (regtest default) or never
-	TwoWork  bool // ReduceMinDifficulty realises two work levels
+	BIP34    bool  // BIP34 active from height 1, BIP66 from height B66, BIP65 from height B65 (all never when false)
+	B66, B65 int32 // used when BIP34 is set; 0 means height 1
+	TwoWork  bool  // ReduceMinDifficulty realises two work levels
 }
 
 // NewParams returns a fresh parameter set (never share one between chain
@@ -57,6 +59,16 @@ func NewParams(base time.Time, o NetOpts) *chaincfg.Params {
 		p.BIP0034Height = 100000000
 		p.BIP0065Height = 100000000
 		p.BIP0066Height = 100000000
+	} else {
+		p.BIP0034Height = 1
+		p.BIP0066Height = 1
+		p.BIP0065Height = 1
+		if o.B66 > 0 {
+			p.BIP0066Height = o.B66
+		}
+		if o.B65 > 0 {
+			p.BIP0065Height = o.B65
+		}
 	}
 	p.Checkpoints = nil
 	for i := range p.Deployments {
@@ -145,6 +157,46 @@ type Factory struct {
 	HeaderMode bool             // headers are delivered first in this run: header-visible sanity rules are not drawn
 	Pre        []*btcutil.Block // real blocks between the real genesis and abstract block 0 (catalogue mode: they provide mature coins)
 	BaseHeight int32
+	Opts       NetOpts  // the options the parameters were made from (a node makes its own fresh copy with NodeParams)
+	ForceRule  []string // per block: when set, the catalogue entry to use instead of a random draw ("edge:<name>" for a valid block)
+}
+
+// NodeParams returns a fresh parameter set equal to the factory's (deployment
+// starters keep a back-pointer to the chain, so every chain instance needs its own).
+func (f *Factory) NodeParams() *chaincfg.Params {
+	fresh := NewParams(f.Base, f.Opts)
+	fresh.GenesisBlock = f.Params.GenesisBlock
+	fresh.GenesisHash = f.Params.GenesisHash
+	return fresh
+}
+
+// cbScript is the coinbase signature script of block b at the given height:
+// the serialized height first where BIP34 is in force.
+func (f *Factory) cbScript(height int32, b int, extra uint32) []byte {
+	s := coinbaseScript(b, extra)
+	if height >= f.Params.BIP0034Height {
+		s = append(heightPush(int64(height)), s...)
+	}
+	return s
+}
+
+// heightPush is the minimal script-number push BIP34 prescribes (what
+// `CScript() << height` produces).
+func heightPush(h int64) []byte {
+	if h == 0 {
+		return []byte{txscript.OP_0}
+	}
+	if h >= 1 && h <= 16 {
+		return []byte{byte(txscript.OP_1 + h - 1)}
+	}
+	var n []byte
+	for v := h; v > 0; v >>= 8 {
+		n = append(n, byte(v))
+	}
+	if n[len(n)-1]&0x80 != 0 {
+		n = append(n, 0)
+	}
+	return append([]byte{byte(len(n))}, n...)
 }
 
 var opTrue = []byte{txscript.OP_TRUE}
@@ -164,7 +216,7 @@ func NewFactory(sc *Scenario, o NetOpts, seed int64) *Factory {
 	// timestamps only need to be recent (script flags depend on time) and not
 	// more than two hours ahead of the time source.
 	base := time.Unix(time.Now().Unix()-20*3600, 0)
-	f := &Factory{Sc: sc, Params: NewParams(base, o), Base: base,
+	f := &Factory{Sc: sc, Params: NewParams(base, o), Base: base, Opts: o, ForceRule: make([]string, sc.N+1),
 		Blocks: make([]*btcutil.Block, sc.N+1), ByHash: map[chainhash.Hash]int{},
 		rng: rand.New(rand.NewSource(seed)), utxo: make([]map[wire.OutPoint]Coin, sc.N+1),
 		Universe: map[wire.OutPoint]bool{}, SpendP: 0.6, DupP: 0.15, FeeP: 0.5, EdgeP: 0.5, RuleName: make([]string, sc.N+1)}
@@ -214,7 +266,7 @@ func (f *Factory) Preamble(k int) {
 	for i := 1; i <= k; i++ {
 		cb := wire.NewMsgTx(1)
 		cb.AddTxIn(&wire.TxIn{PreviousOutPoint: *wire.NewOutPoint(&chainhash.Hash{}, wire.MaxPrevOutIndex),
-			SignatureScript: coinbaseScript(900000+i, 0), Sequence: wire.MaxTxInSequenceNum})
+			SignatureScript: f.cbScript(int32(i), 900000+i, 0), Sequence: wire.MaxTxInSequenceNum})
 		cb.AddTxOut(&wire.TxOut{Value: subsidy, PkScript: opTrue})
 		txs := []*wire.MsgTx{cb}
 		// from the third block on, split an earlier coinbase into several outputs (one of them unspendable by script)
@@ -224,11 +276,16 @@ func (f *Factory) Preamble(k int) {
 					tx := wire.NewMsgTx(1)
 					tx.LockTime = uint32(900000 + i)
 					tx.AddTxIn(&wire.TxIn{PreviousOutPoint: op, Sequence: wire.MaxTxInSequenceNum})
-					q := c.Amount / 4
+					q := c.Amount / 16
 					tx.AddTxOut(&wire.TxOut{Value: q, PkScript: opTrue})
 					tx.AddTxOut(&wire.TxOut{Value: q, PkScript: []byte{txscript.OP_1, txscript.OP_NOP}})
 					tx.AddTxOut(&wire.TxOut{Value: q, PkScript: opTrue})
-					tx.AddTxOut(&wire.TxOut{Value: c.Amount - 3*q, PkScript: []byte{txscript.OP_0}})
+					tx.AddTxOut(&wire.TxOut{Value: q, PkScript: []byte{txscript.OP_0}})
+					// one output of every special kind (special.go)
+					for _, k := range specialOrder {
+						tx.AddTxOut(&wire.TxOut{Value: q, PkScript: specialScripts[k]})
+					}
+					tx.AddTxOut(&wire.TxOut{Value: c.Amount - int64(4+len(specialOrder))*q, PkScript: opTrue})
 					txs = append(txs, tx)
 					delete(set, op)
 					h := tx.TxHash()
@@ -287,6 +344,11 @@ type blockBuilder struct {
 	post     func(h *wire.BlockHeader) // header edit after the merkle root is set
 	unsolved bool                      // leave the hash above the target
 	isLeaf   bool
+	noCommit bool         // the rule handles (or deliberately omits) the witness commitment itself
+	cbNonce  []byte       // coinbase witness reserved value (default: 32 zero bytes)
+	sizeTo   int          // pad the block to exactly this stripped size (0: no padding)
+	weightTo int          // pad the block to exactly this weight; weightTx's first witness item absorbs the remainder
+	weightTx *wire.MsgTx
 }
 
 type cand struct {
@@ -346,7 +408,7 @@ func (f *Factory) build(b int) {
 	// spent ancestor coinbase (legal while BIP34 is inactive: BIP30 only
 	// forbids overwriting unspent outputs)
 	cb := wire.NewMsgTx(1)
-	cbScript := coinbaseScript(b, 0)
+	cbScript := f.cbScript(height, b, 0)
 	dup := false
 	if f.Params.BIP0034Height > height && f.rng.Float64() < f.DupP {
 		for a := p; a != 0; a = sc.Parent[a] {
@@ -372,7 +434,7 @@ func (f *Factory) build(b int) {
 	// with one to three outputs; some pay a fee which the coinbase claims to
 	// the last satoshi
 	usable := func(c Coin) bool {
-		return bb.spendable(c) && len(c.PkScript) > 0 && c.PkScript[0] != txscript.OP_0
+		return bb.spendable(c) && len(c.PkScript) > 0 && c.PkScript[0] != txscript.OP_0 && kindOf(c.PkScript) == ""
 	}
 	for ci, cd := range bb.avail {
 		if _, unspent := bb.mine[cd.op]; !unspent || f.rng.Float64() >= f.SpendP || !usable(cd.c) {
@@ -446,8 +508,17 @@ func (f *Factory) build(b int) {
 		r := f.pickRule(bb, flaw)
 		f.RuleName[b] = r.Name
 		r.Apply(bb)
-	} else if f.Catalogue && f.rng.Float64() < f.EdgeP {
-		if e := f.pickEdge(bb); e != nil {
+	} else if f.Catalogue {
+		var e *Rule
+		if fr := f.ForceRule[b]; strings.HasPrefix(fr, "edge:") {
+			if r := ruleByName(fr[5:]); r != nil && r.Edge != nil && r.EdgeNeed(bb) {
+				e = r
+			}
+		}
+		if e == nil && f.rng.Float64() < f.EdgeP {
+			e = f.pickEdge(bb)
+		}
+		if e != nil {
 			f.RuleName[b] = "edge:" + e.Name
 			e.Edge(bb)
 		}
@@ -456,9 +527,17 @@ func (f *Factory) build(b int) {
 	// finalise
 	if len(bb.txs) > 0 && blockchain.IsCoinBaseTx(bb.txs[0]) && len(bb.txs[0].TxOut) > 0 {
 		bb.txs[0].TxOut[0].Value = subsidy + bb.fees + bb.cbDelta
+	}
+	bb.commitAndPad()
+	if len(bb.txs) > 0 && blockchain.IsCoinBaseTx(bb.txs[0]) && len(bb.txs[0].TxOut) > 0 {
 		cop := wire.OutPoint{Hash: bb.txs[0].TxHash(), Index: 0}
 		bb.mine[cop] = Coin{bb.txs[0].TxOut[0].Value, bb.txs[0].TxOut[0].PkScript, true, height}
-		f.Universe[cop] = true
+	}
+	for _, tx := range bb.txs {
+		h := tx.TxHash()
+		for i := range tx.TxOut {
+			f.Universe[wire.OutPoint{Hash: h, Index: uint32(i)}] = true
+		}
 	}
 	f.utxo[b] = bb.mine
 	blk := &wire.MsgBlock{Header: bb.hdr}
@@ -470,13 +549,6 @@ func (f *Factory) build(b int) {
 		for i, tx := range bb.txs {
 			ub[i] = btcutil.NewTx(tx)
 		}
-		hasWitness := false
-		for _, tx := range bb.txs {
-			if tx.HasWitness() {
-				hasWitness = true
-			}
-		}
-		_ = hasWitness
 		blk.Header.MerkleRoot = blockchain.CalcMerkleRoot(ub, false)
 	}
 	if bb.post != nil {
@@ -491,6 +563,58 @@ func (f *Factory) build(b int) {
 	ublk.SetHeight(height)
 	f.Blocks[b] = ublk
 	f.ByHash[*ublk.Hash()] = b
+}
+
+// commitAndPad completes the coinbase: the BIP141 witness commitment when the
+// block carries witness data, and the padding output that puts the block
+// exactly on a size or weight target.
+func (bb *blockBuilder) commitAndPad() {
+	if len(bb.txs) == 0 || !blockchain.IsCoinBaseTx(bb.txs[0]) {
+		return
+	}
+	cb := bb.txs[0]
+	commit := false
+	if !bb.noCommit {
+		for _, tx := range bb.txs[1:] {
+			if tx.HasWitness() {
+				commit = true
+			}
+		}
+	}
+	ci := -1
+	if commit {
+		nonce := bb.cbNonce
+		if nonce == nil {
+			nonce = make([]byte, 32)
+		}
+		cb.TxIn[0].Witness = wire.TxWitness{nonce}
+		cb.AddTxOut(&wire.TxOut{Value: 0, PkScript: commitmentScript(make([]byte, 32))})
+		ci = len(cb.TxOut) - 1
+	}
+	if bb.sizeTo > 0 || bb.weightTo > 0 {
+		cb.AddTxOut(&wire.TxOut{Value: 0})
+		pi := len(cb.TxOut) - 1
+		blk := &wire.MsgBlock{Header: bb.hdr, Transactions: bb.txs}
+		if bb.sizeTo > 0 {
+			l := bb.sizeTo - blk.SerializeSizeStripped() - 4 // the script length prefix grows from 1 to 5 bytes
+			cb.TxOut[pi].PkScript = padScript(l)
+			if got := blk.SerializeSizeStripped(); got != bb.sizeTo {
+				panic(fmt.Sprintf("padding: stripped size %d, want %d", got, bb.sizeTo))
+			}
+		} else {
+			weight := func() int { return 3*blk.SerializeSizeStripped() + blk.SerializeSize() }
+			d := bb.weightTo - weight()
+			l := d/4 - 4
+			cb.TxOut[pi].PkScript = padScript(l)
+			bb.weightTx.TxIn[0].Witness[0] = make([]byte, bb.weightTo-weight())
+			if got := weight(); got != bb.weightTo || len(bb.weightTx.TxIn[0].Witness[0]) > 3 {
+				panic(fmt.Sprintf("padding: weight %d, want %d", got, bb.weightTo))
+			}
+		}
+	}
+	if ci >= 0 {
+		cb.TxOut[ci].PkScript = commitmentScript(witnessCommitment(bb.txs, cb.TxIn[0].Witness[0]))
+	}
 }
 
 func unsolve(h *wire.BlockHeader) {
